@@ -74,6 +74,7 @@ func checkCLI(cfg *propCfg, tier string, seed uint64, scratch string, start time
 	var evals, nontrivial int64
 	exhaustive := true
 	var infraMsg string
+	shrinking := 0
 	next := uint64(0)
 	workers := runtime.NumCPU()
 	var wg sync.WaitGroup
@@ -125,6 +126,9 @@ func checkCLI(cfg *propCfg, tier string, seed uint64, scratch string, start time
 						Violation: violation{out.V.Kind, out.V.Site, out.V.Detail}, OrigTape: tape.Used(), Engine: "clisim"}
 					pending = &rf
 				}
+				if pending != nil {
+					shrinking++
+				}
 				mu.Unlock()
 				if pending != nil {
 					// minimise outside the lock
@@ -142,6 +146,7 @@ func checkCLI(cfg *propCfg, tier string, seed uint64, scratch string, start time
 					}
 					mu.Lock()
 					viols = append(viols, *pending)
+					shrinking--
 					mu.Unlock()
 				}
 			}
@@ -151,13 +156,19 @@ func checkCLI(cfg *propCfg, tier string, seed uint64, scratch string, start time
 	// 150 s, the model's library calls are not) is infrastructure trouble, never a verdict
 	finished := make(chan struct{})
 	go func() { wg.Wait(); close(finished) }()
-	select {
-	case <-finished:
-	case <-time.After(time.Until(deadline) + 6*time.Minute):
-		mu.Lock()
-		n := next
-		mu.Unlock()
-		infra("a scenario (one of the last %d started, up to case %d) was still running 6 minutes after the budget had ended", workers, n)
+	for grace, done := time.Until(deadline)+6*time.Minute, false; !done; grace = 5 * time.Minute {
+		select {
+		case <-finished:
+			done = true
+		case <-time.After(grace):
+			mu.Lock()
+			n, sh := next, shrinking
+			mu.Unlock()
+			if sh > 0 && time.Since(deadline) < 45*time.Minute {
+				continue // a violation is being minimised (each candidate may be a whole crash enumeration)
+			}
+			infra("a scenario (one of the last %d started, up to case %d) was still running %.0f minutes after the budget had ended", workers, n, time.Since(deadline).Minutes())
+		}
 	}
 	if infraMsg != "" {
 		infra("%s", infraMsg)
